@@ -112,6 +112,9 @@ pub struct DefIn {
     /// name of the enum (default D)
     #[serde(default)]
     pub enum_name: Option<String>,
+    /// generic parameter list of the enum, e.g. `<'a, T>`
+    #[serde(default)]
+    pub enum_generics: Option<String>,
 }
 
 fn yes() -> bool {
@@ -267,6 +270,26 @@ pub fn run_generate(src: &str) -> GenResult {
             }
         }
     }
+}
+
+pub fn norm_hash(text: &str, name: &str) -> String {
+    // replace the enum name wherever it stands as a whole identifier
+    let b = text.as_bytes();
+    let n = name.as_bytes();
+    let mut out = String::with_capacity(text.len());
+    let mut i = 0;
+    let is_id = |c: u8| c.is_ascii_alphanumeric() || c == b'_';
+    while i < b.len() {
+        if b[i..].starts_with(n) && (i == 0 || !is_id(b[i - 1])) && (i + n.len() == b.len() || !is_id(b[i + n.len()])) {
+            out.push('D');
+            i += n.len();
+        } else {
+            let ch = text[i..].chars().next().unwrap();
+            out.push(ch);
+            i += ch.len_utf8();
+        }
+    }
+    fnv64(&out)
 }
 
 pub fn fnv64(s: &str) -> String {
@@ -508,6 +531,8 @@ fn capture(in_path: &str, out_dir: &str, stages: bool) {
             "errors": res.errors,
             "gerrors": gerr_kinds,
             "out_hash": fnv64(&res.out_text),
+            // the same with the enum name replaced, to compare definitions that differ only in their name
+            "out_hash_norm": norm_hash(&res.out_text, def.enum_name.as_deref().unwrap_or("D")),
             "blocks": blocks_ranges,
             "variants": leaves.iter().map(|l| l.variant.clone()).collect::<Vec<_>>(),
             "captured_leaves": captured_leaves,
